@@ -16,18 +16,31 @@ import (
 type cOrdGhost struct {
 	metric uint16
 	seq    uint64
+	hop    int
 	live   bool
 }
 
 const cOrdAdds = 3
 
 // the ghost per origin follows the documented replace rule
-func cOrdStep(g *[3]cOrdGhost, o int, metric uint16, seq uint64, ok bool, tag string) {
+func cOrdStep(g *[3]cOrdGhost, o, hop int, metric uint16, seq uint64, ok bool, tag string) {
 	want := !g[o].live || seq > g[o].seq || (seq == g[o].seq && metric < g[o].metric)
 	verif_assert(ok == want, tag)
 	if ok {
-		g[o] = cOrdGhost{metric: metric, seq: seq, live: true}
+		g[o] = cOrdGhost{metric: metric, seq: seq, hop: hop, live: true}
 	}
+}
+
+// loss of peer p: exactly the entries learned through p go
+func cOrdPeerLoss(g *[3]cOrdGhost, p int) int {
+	n := 0
+	for i := range g {
+		if g[i].live && g[i].hop == p {
+			g[i].live = false
+			n++
+		}
+	}
+	return n
 }
 
 func cOrdBest(g *[3]cOrdGhost) (uint16, bool) {
@@ -40,11 +53,27 @@ func cOrdBest(g *[3]cOrdGhost) (uint16, bool) {
 	return best, any
 }
 
-func cOrdIDs(o int) (identity.AgentID, identity.AgentID, []identity.AgentID) {
+// one withdrawal or peer loss after the announcements (or none): which origin's entry goes
+func cOrdRemoval(g *[3]cOrdGhost) (how int, o int) {
+	how = verif_choose(3) // 0 nothing, 1 withdraw by origin, 2 loss of the next-hop peer
+	if how != 0 {
+		o = verif_choose(3)
+	}
+	return how, o
+}
+
+// the route of origin o arrives through an arbitrary neighbour (several origins may share one)
+func cOrdIDs(o int) (identity.AgentID, identity.AgentID, []identity.AgentID, int) {
 	origin := c08ID(o)
-	// one next hop per origin: the key of the agent table is (origin, next hop)
-	hop := c08ID(o)
-	return origin, hop, []identity.AgentID{hop, origin}
+	h := o // directly from the origin ...
+	if verif_nondet_bool() {
+		h = 0 // ... or relayed by neighbour 0, which several origins may share
+	}
+	hop := c08ID(h)
+	if h == o {
+		return origin, hop, []identity.AgentID{origin}, h
+	}
+	return origin, hop, []identity.AgentID{hop, origin}, h
 }
 
 func harnessC08Order() {
@@ -53,10 +82,18 @@ func harnessC08Order() {
 	var g [3]cOrdGhost
 	for i := 0; i < cOrdAdds; i++ {
 		o := verif_choose(3)
-		origin, hop, path := cOrdIDs(o)
+		origin, hop, path, h := cOrdIDs(o)
 		metric, seq := verif_nondet_u16(), verif_nondet_u64()
 		ok := t.AddRoute(&Route{Network: nw, NextHop: hop, OriginAgent: origin, Metric: metric, Sequence: seq, Path: path})
-		cOrdStep(&g, o, metric, seq, ok, "C10/cidr-replace-rule")
+		cOrdStep(&g, o, h, metric, seq, ok, "C10/cidr-replace-rule")
+	}
+	switch how, o := cOrdRemoval(&g); how {
+	case 1:
+		verif_assert(t.RemoveRoute(nw, c08ID(o)) == g[o].live, "C10/cidr-remove-exactly-that-route")
+		g[o].live = false
+	case 2:
+		n := t.RemoveRoutesFromPeer(c08ID(o))
+		verif_assert(n == cOrdPeerLoss(&g, o), "C10/cidr-disconnect-removes-exactly-peer-routes")
 	}
 	verif_reach("C08/order")
 	got := t.Lookup(net.IP{10, 1, 2, 3})
@@ -77,11 +114,19 @@ func harnessC09OrderDomain() {
 	var g [3]cOrdGhost
 	for i := 0; i < cOrdAdds; i++ {
 		o := verif_choose(3)
-		origin, hop, path := cOrdIDs(o)
+		origin, hop, path, h := cOrdIDs(o)
 		metric, seq := verif_nondet_u16(), verif_nondet_u64()
 		isW, base := ParseDomainPattern(pat)
 		ok := t.AddRoute(&DomainRoute{Pattern: pat, IsWildcard: isW, BaseDomain: base, NextHop: hop, OriginAgent: origin, Metric: metric, Sequence: seq, Path: path})
-		cOrdStep(&g, o, metric, seq, ok, "C10/domain-replace-rule")
+		cOrdStep(&g, o, h, metric, seq, ok, "C10/domain-replace-rule")
+	}
+	switch how, o := cOrdRemoval(&g); how {
+	case 1:
+		verif_assert(t.RemoveRoute(pat, c08ID(o)) == g[o].live, "C10/domain-remove-exactly-that-route")
+		g[o].live = false
+	case 2:
+		n := t.RemoveRoutesFromPeer(c08ID(o))
+		verif_assert(n == cOrdPeerLoss(&g, o), "C10/domain-disconnect-removes-exactly-peer-routes")
 	}
 	verif_reach("C09/order-domain")
 	name := "A.b"
@@ -101,10 +146,18 @@ func harnessC09OrderForward() {
 	var g [3]cOrdGhost
 	for i := 0; i < cOrdAdds; i++ {
 		o := verif_choose(3)
-		origin, hop, path := cOrdIDs(o)
+		origin, hop, path, h := cOrdIDs(o)
 		metric, seq := verif_nondet_u16(), verif_nondet_u64()
 		ok := t.AddRoute(&ForwardRoute{Key: "k", NextHop: hop, OriginAgent: origin, Metric: metric, Sequence: seq, Path: path})
-		cOrdStep(&g, o, metric, seq, ok, "C10/forward-replace-rule")
+		cOrdStep(&g, o, h, metric, seq, ok, "C10/forward-replace-rule")
+	}
+	switch how, o := cOrdRemoval(&g); how {
+	case 1:
+		verif_assert(t.RemoveRoute("k", c08ID(o)) == g[o].live, "C10/forward-remove-exactly-that-route")
+		g[o].live = false
+	case 2:
+		n := t.RemoveRoutesFromPeer(c08ID(o))
+		verif_assert(n == cOrdPeerLoss(&g, o), "C10/forward-disconnect-removes-exactly-peer-routes")
 	}
 	verif_reach("C09/order-forward")
 	got := t.Lookup("k")
@@ -125,7 +178,11 @@ func harnessC09OrderAgent() {
 		hop := c08ID(o)
 		metric, seq := verif_nondet_u16(), verif_nondet_u64()
 		ok := t.AddRoute(&AgentRoute{AgentID: target, NextHop: hop, OriginAgent: target, Metric: metric, Sequence: seq, Path: []identity.AgentID{hop, target}})
-		cOrdStep(&g, o, metric, seq, ok, "C10/agent-replace-rule")
+		cOrdStep(&g, o, o, metric, seq, ok, "C10/agent-replace-rule")
+	}
+	if how, o := cOrdRemoval(&g); how == 2 {
+		n := t.RemoveRoutesFromPeer(c08ID(o))
+		verif_assert(n == cOrdPeerLoss(&g, o), "C10/agent-disconnect-removes-exactly-peer-routes")
 	}
 	verif_reach("C09/order-agent")
 	got := t.Lookup(target)
